@@ -65,15 +65,18 @@ impl CachedPlan {
     /// Return true if a set of input and output nodes matches those used to
     /// create the plan.
     pub fn matches(&self, inputs: &[NodeId], outputs: &[NodeId]) -> bool {
-        let input_match = inputs.len() == self.inputs.len()
-            && inputs
-                .iter()
-                .all(|node_id| self.inputs.binary_search(node_id).is_ok());
-        let output_match = outputs.len() == self.outputs.len()
-            && outputs
-                .iter()
-                .all(|node_id| self.outputs.binary_search(node_id).is_ok());
-        input_match && output_match
+        // The IDs must be the same set as when the plan was created. Comparing
+        // lengths and membership is not enough, as a request with duplicate
+        // IDs (which planning rejects) could match a plan for a different set.
+        fn same_ids(sorted: &[NodeId], ids: &[NodeId]) -> bool {
+            if ids.len() != sorted.len() {
+                return false;
+            }
+            let mut ids = ids.to_vec();
+            ids.sort();
+            ids == sorted
+        }
+        same_ids(&self.inputs, inputs) && same_ids(&self.outputs, outputs)
     }
 
     /// Return the IDs of the sequence of operators to run.
